@@ -1,17 +1,20 @@
 (* Props/C02.v -- property theorems only (MIPS part; the PowerPC part of C02 is covered by the sampled
    comparison only, see notes/C02.md) *)
 From Coq Require Import ZArith List.
-From Falcon Require Import Base.Res IL.Func Exec.Sem Isa.ILRun Isa.Mips Isa.MipsLift Isa.MipsProofs Isa.C02Check Isa.MipsRefuted.
+From Falcon Require Import Base.Res IL.Func Exec.Sem Isa.ILRun Isa.Mips Isa.MipsLift Isa.MipsProofs Isa.MipsAll Isa.C02Check Isa.MipsRefuted.
+From Falcon Require Isa.Ppc Isa.PpcLift Isa.PpcProofs.
 Import ListNotations.
 Local Open Scope Z_scope.
 
-(* 1. [U] per-form correctness of the lifter mirror, non-control forms with a theorem (proved_plain):
-      add addu sub subu and or xor nor slt sltu movn movz mul, sll srl sra, sllv srlv srav,
-      addi addiu slti sltiu andi ori xori, lui, mfhi mflo mthi mtlo, teq break syscall sync pref
-      (and capstone's aliases move, negu, nop).
-      For ALL register / immediate fields, ALL lifting addresses, ALL well-formed machine states and ALL
-      IL states embedding them: the builder raises no sort error, and running its graph yields the state
-      (or the exception) the ISA specification prescribes; `branching_condition` is left alone. *)
+(* 1. [U] per-form correctness of the lifter mirror, EVERY non-control form the lifter handles except rdhwr
+      (proved_plain): add addu sub subu and or xor nor slt sltu movn movz mul, sll srl sra, sllv srlv srav,
+      addi addiu slti sltiu andi ori xori, lui, clz clo (induction on the counter), mult multu div divu madd maddu
+      msub msubu, mfhi mflo mthi mtlo, lb lbu lh lhu lw ll lwl lwr, sb sh sw sc swl swr (both endiannesses),
+      teq break syscall sync pref (and capstone's aliases move, negu, nop).
+      For ALL register / immediate fields, ALL lifting addresses, ALL well-formed machine states and ALL IL states
+      embedding them (memory forms: whose memory maps the bytes read, and for which the ISA raises no
+      AddressError -- `access_ok`): the builder raises no sort error, and running its graph yields the state (or
+      the exception) the ISA specification prescribes; `branching_condition` is left alone. *)
 Theorem mips_plain_forms_correct : forall bg i, proved_plain i = true -> fields_ok i -> plain_correct bg i.
 Proof. exact proved_plain_correct. Qed.
 Print Assumptions mips_plain_forms_correct.
@@ -53,6 +56,9 @@ Print Assumptions mips_branch_block_correct.
 Theorem mips_fields_okb_ok : forall i, fields_okb i = true -> fields_ok i.
 Proof. exact fields_okb_ok. Qed.
 Print Assumptions mips_fields_okb_ok.
+Theorem mips_nodup_temps_distinct : forall i ts, nodupN ts = true -> (2 <= length ts)%nat -> temps_distinct i ts.
+Proof. exact nodupN_distinct. Qed.
+Print Assumptions mips_nodup_temps_distinct.
 Theorem mips_branch_okb_ok : forall a b, branch_okb a b = true -> branch_ok a b.
 Proof. exact branch_okb_ok. Qed.
 Print Assumptions mips_branch_okb_ok.
@@ -65,6 +71,20 @@ Print Assumptions mips_jr_target_read_after_slot_refuted.
 Theorem mips_unaligned_lw_refuted : witness_ok true 4198400 [2349334529] (mksample [] 0 0 7) = false.
 Proof. exact unaligned_lw_refuted. Qed.
 Print Assumptions mips_unaligned_lw_refuted.
+(* 6. PowerPC [U]: every form the lifter accepts except stmw -- add subf addze addi/li addis/lis cmpwi cmplwi lbz lwz
+      lwzu stw stwu mr nop rlwinm/slwi srawi mtlr mtctr mflr b bl blr bctr -- at the level of the translated block:
+      for ALL fields, ALL lift addresses, ALL well-formed machine states and ALL IL states embedding them
+      (GPRs, LR, CTR, CA, the 32 CR bits, memory sub-map), the builder raises no sort error and running graph +
+      successor yields the ISA's next state and next instruction address.  Side conditions: cmpwi/cmplwi for
+      states whose crN-so already equals XER[SO] (the IL has no XER[SO]); loads from mapped bytes; `b` with
+      its target inside [0, 2^32). *)
+Theorem ppc_forms_correct : forall i, PpcLift.pproved i = true -> PpcProofs.pfields_ok i -> PpcProofs.pcorrect i.
+Proof. exact PpcProofs.pproved_correct. Qed.
+Print Assumptions ppc_forms_correct.
+Theorem ppc_fields_okb_ok : forall i, PpcLift.pfields_okb i = true -> PpcProofs.pfields_ok i.
+Proof. exact PpcProofs.pfields_okb_ok. Qed.
+Print Assumptions ppc_fields_okb_ok.
+
 (* the hypotheses are satisfiable: the sampled states of the check are well formed and embedded *)
 Example mips_hypotheses_satisfiable :
   let s := mk_mstate true 4198400 (mksample [(8, 5)] 1 2 3) in
